@@ -113,6 +113,20 @@ CHECKS["C13"] = dict(
     note="Trusted: executor + models, z3. Process-level variation (environment, colour settings, separate launches) is outside the encoding.",
     ref="DESIGN.md 4 (C13)")
 
+CHECKS["C15"] = dict(
+    text="Four solver-decided parts. L: error::listing is executed on symbolic text (code points symbolic over ASCII plus 12 non-ASCII representatives, byte offsets "
+         "symbolic sums of UTF-8 widths; 5 characters quick, 7 thorough) with every token-shaped range on character boundaries; a character-level reference fixes "
+         "the lines shown and their numbers, the highlighted slice, and the overline's column and length in characters, while the real function does byte "
+         "arithmetic and string slicing (slicing off a boundary or an underflow is a reported panic). T: type_check on symbolic programs (<= 4 nodes quick, 5 "
+         "thorough) whose nodes carry distinct ranges: a program rejected with one diagnostic points at the subterm the reference checker blames. S: the C08 "
+         "exploration of resolve_variables with symbolic names, keeping the obligation that each unbound occurrence is reported once with that identifier's "
+         "range. U: the C09 exploration of tokenize, keeping the obligation that an unexpected symbol's range is exactly that grapheme. The defect found by L "
+         "was repaired (fix: bc229c2). Counterexamples are rendered by the compiled listing / type checker (a one-line ruler as source recovers the range).",
+    note="Trusted: executor + models (char predicates and UTF-8 widths read from compiled std and validated), the reference checker's blame site, z3. NOT covered: "
+         "the ranges computed by the packrat parser (span(..) in each parse function, including the implicit-parameter range quoted in the property); colour mode; "
+         "display width of wide/combining characters.",
+    ref="DESIGN.md 4 (C15)")
+
 CHECKS["C09"] = dict(
     text="Bounded symbolic verification of the tokenizer: tokenizer::tokenize (both passes) is executed by path forking on every text of up to 3 (quick) / 4 "
          "(thorough) characters whose code points are symbolic over all of ASCII plus 12 non-ASCII representatives (2/3/4-byte letters, a non-ASCII digit, "
